@@ -1,7 +1,7 @@
 #!/bin/bash
 # tools/benign_confirm.sh <Cxx> <bN> [wtprefix]  — confirm a sub-agent's property-PRESERVING change in its scratch
 # worktree (applies to /repo HEAD, suite passes, demo runs) and keep it under benign/<Cxx>-<bN>/
-P=$1; B=$2; WT=/tmp/${3:-ben}-$P; SRC=$WT/BENIGN/$B; NAME=$P-$B; DST=/verif/benign/$NAME
+P=$1; B=$2; WT=/tmp/${3:-ben}-$P; SRC=$WT/BENIGN/$B; NAME=${4:-$P-$B}; DST=/verif/benign/$NAME
 HEAD=$(git -C /repo rev-parse HEAD)
 git -C $WT checkout -q -- pycaption 2>/dev/null; git -C $WT checkout -q --detach $HEAD || exit 9
 if ! git -C $WT apply $SRC/patch.diff 2>/dev/null; then echo "$NAME: PATCH DOES NOT APPLY"; git -C $WT checkout -q -- pycaption; exit 1; fi
